@@ -320,3 +320,432 @@ Proof.
 Qed.
 
 Print Assumptions layout_parses.
+
+(* ====================================================================================== *)
+(* Part 2: the model of Command.tosieve produces that layout                               *)
+(* ====================================================================================== *)
+
+(* the local functions of Printer.tosieve, as functions of the recursive calls *)
+Fixpoint p_tests (pt : node -> bytes) (l : list node) : bytes :=
+  match l with
+  | [] => []
+  | [t] => pt t
+  | t :: r => pt t ++ [44%N; 32%N] ++ p_tests pt r
+  end.
+
+Definition p_value (d : cmddef) (pt0 pti : node -> bytes) (is_string : bool) (name : bytes) (v : aval) : bytes :=
+  match v with
+  | VTests l =>
+      match find_def (d_args d) name with
+      | Some a => match a_type a with
+                  | [TyTestList] => [40%N] ++ p_tests pt0 l ++ [41%N]
+                  | _ => print_items []
+                  end
+      | None => print_items []
+      end
+  | VList vs =>
+      match find_def (d_args d) name with
+      | Some a => match a_type a with
+                  | [TyTestList] => [40%N; 41%N]
+                  | _ => print_items vs
+                  end
+      | None => print_items vs
+      end
+  | VTest t => pti t
+  | VStr s => print_scalar is_string s
+  end.
+
+Fixpoint p_args (d : cmddef) (pt0 pti : node -> bytes) (n : node) (defs : list argdef) : bytes :=
+  match defs with
+  | [] => []
+  | a :: rest =>
+      match assoc_get (a_name a) (node_args n) with
+      | None => p_args d pt0 pti n rest
+      | Some v =>
+          [32%N] ++
+          (if atype_mem TyTag (a_type a) then
+             (match v with VStr s => s | _ => [] end) ++
+             (match assoc_get (a_name a) (node_extra n), a_extra a with
+              | Some ev, Some ex => [32%N] ++ p_value d pt0 pti (has_string_ex (ex_type ex)) (a_name a) ev
+              | _, _ => []
+              end)
+           else p_value d pt0 pti (has_string_list (a_type a)) (a_name a) v)
+          ++ p_args d pt0 pti n rest
+      end
+  end.
+
+Fixpoint p_kids (pk : node -> bytes) (l : list node) : bytes :=
+  match l with [] => [] | c :: r => pk c ++ p_kids pk r end.
+
+Lemma tosieve_S : forall f n indent,
+  tosieve (S f) n indent =
+  spaces indent ++ d_name (node_def n) ++
+  p_args (node_def n) (fun t => tosieve f t 0) (fun t => tosieve f t indent) n (d_args (node_def n)) ++
+  (if negb (d_accept_children (node_def n)) then
+     match d_type (node_def n) with CTest => [] | _ => [59%N; 10%N] end
+   else match d_type (node_def n) with
+        | CControl => [32%N; 123%N; 10%N] ++ p_kids (fun c => tosieve f c (indent + 4)) (node_children n) ++ spaces indent ++ [125%N; 10%N]
+        | _ => []
+        end).
+Proof.
+  intros f n indent. cbn [tosieve]. f_equal. f_equal. f_equal.
+  - match goal with |- ?F ?l = p_args ?d ?a ?b ?n0 ?l =>
+      assert (H : forall defs, F defs = p_args d a b n0 defs); [|apply H] end.
+    assert (Ht : forall l,
+      (fix tests (l1 : list node) : bytes :=
+         match l1 with
+         | [] => []
+         | [t] => tosieve f t 0
+         | t :: (_ :: _) as r => tosieve f t 0 ++ [44%N; 32%N] ++ tests r
+         end) l = p_tests (fun t => tosieve f t 0) l).
+    { induction l as [|t r IHr]; [reflexivity|]. cbn [p_tests]. destruct r as [|t2 r2]; [reflexivity|]. rewrite <- IHr. reflexivity. }
+    induction defs as [|a rest IH]; [reflexivity|].
+    cbn [p_args]. rewrite <- IH. clear IH.
+    destruct (assoc_get (a_name a) (node_args n)) as [v|]; [|reflexivity].
+    f_equal. f_equal.
+    destruct (atype_mem TyTag (a_type a)).
+    + f_equal. destruct (assoc_get (a_name a) (node_extra n)) as [ev|]; [|reflexivity].
+      destruct (a_extra a) as [ex|]; [|reflexivity]. f_equal.
+      destruct ev; try reflexivity. unfold p_value. rewrite Ht. reflexivity.
+    + destruct v; try reflexivity. unfold p_value. rewrite Ht. reflexivity.
+  - destruct (negb (d_accept_children (node_def n))); [reflexivity|].
+    destruct (d_type (node_def n)); try reflexivity.
+    f_equal. f_equal.
+    generalize (node_children n). induction l as [|c r IHr]; [reflexivity|]. cbn [p_kids]. rewrite <- IHr. reflexivity.
+Qed.
+
+(* ---------------------------------------------------------------- argument maps read in definition order *)
+
+(* [find_def] does not send the printer to a test-list slot for this name *)
+Definition plain_name (d : cmddef) (name : bytes) : Prop :=
+  match find_def (d_args d) name with
+  | Some a0 => match a_type a0 with [TyTestList] => False | _ => True end
+  | None => True
+  end.
+
+(* how a stored value is written: [p] is the argument it stands for *)
+Inductive val_arg (d : cmddef) (name : bytes) (is_string : bool) : aval -> argument -> Prop :=
+| va_string : forall s, exact_string s -> val_arg d name is_string (VStr s) (TyString, VStr s)
+| va_number : forall s, num_ok s -> is_string = false -> val_arg d name is_string (VStr s) (TyNumber, VStr s)
+| va_list : forall vs, vs <> [] -> Forall exact_string vs -> plain_name d name ->
+            val_arg d name is_string (VList vs) (TyStringList, VList vs).
+
+(* the maps [am] / [em] of a node, read slot by slot in the order of the definition, are the arguments [args] *)
+Inductive slots_args (d : cmddef) (am em : list (bytes * aval)) : list argdef -> list argument -> Prop :=
+| sa_nil : slots_args d am em [] []
+| sa_absent : forall a rest args,
+    assoc_get (a_name a) am = None -> slots_args d am em rest args -> slots_args d am em (a :: rest) args
+| sa_tag : forall a rest args s,
+    atype_mem TyTag (a_type a) = true -> assoc_get (a_name a) am = Some (VStr s) -> tag_ok s = true ->
+    (assoc_get (a_name a) em = None \/ a_extra a = None) ->
+    slots_args d am em rest args -> slots_args d am em (a :: rest) ((TyTag, VStr s) :: args)
+| sa_tag_param : forall a rest args s ev ex p,
+    atype_mem TyTag (a_type a) = true -> assoc_get (a_name a) am = Some (VStr s) -> tag_ok s = true ->
+    assoc_get (a_name a) em = Some ev -> a_extra a = Some ex ->
+    val_arg d (a_name a) (has_string_ex (ex_type ex)) ev p ->
+    slots_args d am em rest args -> slots_args d am em (a :: rest) ((TyTag, VStr s) :: p :: args)
+| sa_pos : forall a rest args v p,
+    atype_mem TyTag (a_type a) = false -> assoc_get (a_name a) am = Some v ->
+    val_arg d (a_name a) (has_string_list (a_type a)) v p ->
+    slots_args d am em rest args -> slots_args d am em (a :: rest) (p :: args).
+
+Lemma join_items_layout : forall vs w, vs <> [] -> lrender (lt_items w vs) = w ++ join [44%N; 32%N] vs.
+Proof.
+  induction vs as [|v r IH]; intros w Hne; [congruence|].
+  cbn [lt_items lrender]. destruct r as [|v2 r2].
+  - cbn. rewrite app_nil_r. reflexivity.
+  - cbn [lrender app]. rewrite (IH [32%N]) by discriminate.
+    change (join [44%N; 32%N] (v :: v2 :: r2)) with (v ++ [44%N; 32%N] ++ join [44%N; 32%N] (v2 :: r2)).
+    cbn [app]. reflexivity.
+Qed.
+
+Lemma map_print_item_exact : forall vs, Forall exact_string vs -> map print_item vs = vs.
+Proof.
+  induction vs as [|v r IH]; intro H; [reflexivity|]. inversion H; subst. cbn [map].
+  rewrite print_item_exact by assumption. rewrite IH by assumption. reflexivity.
+Qed.
+
+Lemma exact_starts_quote : forall s, exact_string s -> starts_with [34%N] s = true.
+Proof. intros s H. destruct (exact_string_shape s H) as (body & -> & _). reflexivity. Qed.
+
+Lemma lt_arg_w : forall p w, arg_pr p -> lrender (lt_arg w p) = w ++ lrender (lt_arg [] p).
+Proof.
+  intros [[] [s0|items|n0|ns0]] w H; cbn in H; try contradiction; cbn [lt_arg lrender app]; reflexivity.
+Qed.
+
+Lemma val_arg_pr : forall d name b v p, val_arg d name b v p -> arg_pr p.
+Proof. intros d name b v p H. destruct H; cbn; auto. Qed.
+
+Lemma val_layout : forall d pt0 pti name b v p,
+  val_arg d name b v p -> p_value d pt0 pti b name v = lrender (lt_arg [] p).
+Proof.
+  intros d pt0 pti name b v p H. destruct H as [s Hs|s Hs Hb|vs Hne Hall Hpl]; cbn [p_value lt_arg lrender app].
+  - unfold print_scalar. rewrite (exact_starts_quote s Hs). cbn [orb]. destruct b; rewrite ?app_nil_r; reflexivity.
+  - subst b. unfold print_scalar. rewrite app_nil_r. reflexivity.
+  - assert (Hp : print_items vs = 91%N :: lrender (lt_items [] vs ++ [([], TRightBracket, [93%N])])).
+    { unfold print_items. rewrite (map_print_item_exact vs Hall), lrender_app, (join_items_layout vs [] Hne). reflexivity. }
+    unfold plain_name in Hpl. destruct (find_def (d_args d) name) as [a0|]; [|exact Hp].
+    destruct (a_type a0) as [|[] [|y l]]; try exact Hp. contradiction.
+Qed.
+
+Lemma args_layout : forall d am em ch cm pt0 pti defs args,
+  slots_args d am em defs args ->
+  p_args d pt0 pti (Node d am em ch cm) defs = lrender (lt_args args) /\ Forall arg_pr args.
+Proof.
+  intros d am em ch cm pt0 pti defs args H.
+  induction H as [|a rest args Ha H IH|a rest args s Ht Ha Hs Hno H IH|a rest args s ev ex p Ht Ha Hs He Hex Hv H IH
+                  |a rest args v p Ht Ha Hv H IH]; cbn [p_args node_args node_extra].
+  - split; [reflexivity|constructor].
+  - rewrite Ha. exact IH.
+  - destruct IH as (IH & IHp). rewrite Ha, Ht. split; [|constructor; [exact Hs|exact IHp]].
+    unfold lt_args in *. cbn [flat_map lt_arg]. cbn [app lrender]. rewrite <- IH.
+    destruct Hno as [Hn|Hn]; rewrite Hn; [|destruct (assoc_get (a_name a) em)]; rewrite ?app_nil_r; reflexivity.
+  - destruct IH as (IH & IHp). rewrite Ha, Ht, He, Hex.
+    pose proof (val_arg_pr _ _ _ _ _ Hv) as Hpp.
+    split; [|constructor; [exact Hs|constructor; [exact Hpp|exact IHp]]].
+    unfold lt_args in *. cbn [flat_map]. rewrite lrender_app, lrender_app, <- IH.
+    rewrite (lt_arg_w p [32%N] Hpp), (val_layout d pt0 pti _ _ _ _ Hv).
+    cbn [lt_arg lrender app]. rewrite <- !app_assoc. reflexivity.
+  - destruct IH as (IH & IHp). rewrite Ha, Ht.
+    pose proof (val_arg_pr _ _ _ _ _ Hv) as Hpp.
+    split; [|constructor; [exact Hpp|exact IHp]].
+    unfold lt_args in *. cbn [flat_map]. rewrite lrender_app, <- IH.
+    rewrite (lt_arg_w p [32%N] Hpp), (val_layout d pt0 pti _ _ _ _ Hv). cbn [app]. reflexivity.
+Qed.
+
+(* ---------------------------------------------------------------- trees in canonical form *)
+
+Fixpoint dt (t : gtest) : nat :=
+  match t with
+  | GSimple _ _ => 1
+  | GNot _ t' => S (dt t')
+  | GList _ ts => S (fold_right (fun x m => Nat.max (dt x) m) 0 ts)
+  end.
+
+Fixpoint dc (c : gcmd) : nat :=
+  match c with
+  | GAct _ _ => 1
+  | GCtl _ t body => S (Nat.max (dt t) (fold_right (fun x m => Nat.max (dc x) m) 0 body))
+  | GElse _ body => S (fold_right (fun x m => Nat.max (dc x) m) 0 body)
+  end.
+
+(* the tree of a script whose commands are spelled as in their definitions and whose arguments are written in
+   definition order, each optional slot at most once *)
+Inductive canon_test : gtest -> node -> Prop :=
+| ct_simple : forall d args am em,
+    ident_ok (d_name d) = true -> d_type d = CTest -> slots_args d am em (d_args d) args ->
+    canon_test (GSimple (d_name d) args) (Node d am em [] [])
+| ct_not : forall d a t' n',
+    ident_ok (d_name d) = true -> d_type d = CTest -> d_args d = [a] -> atype_mem TyTag (a_type a) = false ->
+    canon_test t' n' ->
+    canon_test (GNot (d_name d) t') (Node d [(a_name a, VTest n')] [] [] [])
+| ct_list : forall d a ts ns,
+    ident_ok (d_name d) = true -> d_type d = CTest -> d_args d = [a] -> a_type a = [TyTestList] -> ts <> [] ->
+    Forall2 canon_test ts ns ->
+    canon_test (GList (d_name d) ts) (Node d [(a_name a, VTests ns)] [] [] []).
+
+Inductive canon_cmd : gcmd -> node -> Prop :=
+| cc_act : forall d args am em,
+    ident_ok (d_name d) = true -> d_type d <> CTest -> d_accept_children d = false -> slots_args d am em (d_args d) args ->
+    canon_cmd (GAct (d_name d) args) (Node d am em [] [])
+| cc_ctl : forall d a t nt body ns,
+    ident_ok (d_name d) = true -> d_type d = CControl -> d_accept_children d = true -> d_args d = [a] -> atype_mem TyTag (a_type a) = false ->
+    canon_test t nt -> Forall2 canon_cmd body ns ->
+    canon_cmd (GCtl (d_name d) t body) (Node d [(a_name a, VTest nt)] [] ns [])
+| cc_else : forall d body ns,
+    ident_ok (d_name d) = true -> d_type d = CControl -> d_accept_children d = true -> d_args d = [] ->
+    Forall2 canon_cmd body ns ->
+    canon_cmd (GElse (d_name d) body) (Node d [] [] ns []).
+
+Lemma sp0 : sp 0 = []. Proof. reflexivity. Qed.
+
+Lemma assoc_get_one : forall (V : Type) k (v : V), assoc_get k [(k, v)] = Some v.
+Proof. intros. cbn. rewrite beq_refl'. reflexivity. Qed.
+
+Lemma find_def_one : forall a, find_def [a] (a_name a) = Some a.
+Proof. intros. cbn. rewrite beq_refl'. reflexivity. Qed.
+
+Definition Ptest (t : gtest) (n : node) : Prop :=
+  forall f ind w, dt t <= f -> w ++ tosieve f n ind = lrender (lt_test ind (w ++ sp ind) t).
+
+Lemma lt_tests_layout : forall f ts ns,
+  Forall2 (fun t n => dt t <= f -> forall w, w ++ tosieve f n 0 = lrender (lt_test 0 w t)) ts ns ->
+  fold_right (fun x m => Nat.max (dt x) m) 0 ts <= f -> ts <> [] ->
+  forall w1, w1 ++ p_tests (fun t => tosieve f t 0) ns = lrender (lt_tests w1 ts).
+Proof.
+  intros f ts ns H. induction H as [|t n ts ns Ht Hr IH]; intros Hd Hne w1; [congruence|].
+  cbn [fold_right] in Hd. cbn [p_tests lt_tests].
+  destruct Hr as [|t2 n2 ts2 ns2 Ht2 Hr2].
+  - apply Ht. lia.
+  - rewrite lrender_app. cbn [lrender app]. rewrite <- (Ht ltac:(lia) w1).
+    rewrite <- (IH ltac:(lia) ltac:(discriminate) [32%N]). rewrite <- !app_assoc. reflexivity.
+Qed.
+
+Theorem test_layout : forall t n, canon_test t n -> Ptest t n.
+Proof.
+  fix IH 3. intros t n H. destruct H as [d args am em Hid Hty Hs|d a t' n' Hid Hty Ha Hnt Ht|d a ts ns Hid Hty Ha Htl Hne Hall];
+    intros f ind w Hf; (destruct f as [|f]; [cbn in Hf; lia|]); rewrite tosieve_S; cbn [node_def node_children].
+  - destruct (args_layout d am em [] [] (fun t => tosieve f t 0) (fun t => tosieve f t ind) _ _ Hs) as (E & _).
+    rewrite E. cbn [lt_test lrender]. rewrite Hty.
+    destruct (negb (d_accept_children d)); rewrite app_nil_r; unfold sp; rewrite <- !app_assoc; reflexivity.
+  - rewrite Ha. cbn [p_args node_args]. rewrite assoc_get_one, Hnt. cbn [p_value]. rewrite Hty.
+    cbn [lt_test lrender dt] in *.
+    pose proof (IH t' n' Ht f ind [32%N] ltac:(lia)) as E. cbn [app] in E. rewrite <- E.
+    destruct (negb (d_accept_children d)); rewrite !app_nil_r; unfold sp; rewrite <- !app_assoc; reflexivity.
+  - rewrite Ha. cbn [p_args node_args]. rewrite assoc_get_one, Htl. cbn [atype_mem atype_eqb orb p_value].
+    rewrite Ha, find_def_one, Htl, Hty. rewrite lt_test_list. cbn [lrender dt] in *.
+    assert (G : Forall2 (fun t n => dt t <= f -> forall w, w ++ tosieve f n 0 = lrender (lt_test 0 w t)) ts ns).
+    { clear Hne Hf. induction Hall as [|t0 n0 ts0 ns0 H0 Hr IHr]; constructor; [|exact IHr].
+      intros Hd w0. pose proof (IH t0 n0 H0 f 0 w0 Hd) as E. rewrite sp0, app_nil_r in E. exact E. }
+    pose proof (lt_tests_layout f ts ns G ltac:(lia) Hne []) as E. cbn [app] in E.
+    rewrite lrender_app, <- E. cbn [lrender app].
+    destruct (negb (d_accept_children d)); rewrite !app_nil_r; unfold sp; rewrite <- !app_assoc; reflexivity.
+Qed.
+
+Definition Pcmdl (c : gcmd) (n : node) : Prop :=
+  forall f ind w, dc c <= f -> w ++ tosieve f n ind = lrender (lt_cmd ind w c) ++ [10%N].
+
+Lemma kids_layout : forall f i body ns,
+  Forall2 (fun c n => dc c <= f -> [10%N] ++ tosieve f n i = lrender (lt_cmd i [10%N] c) ++ [10%N]) body ns ->
+  fold_right (fun x m => Nat.max (dc x) m) 0 body <= f ->
+  [10%N] ++ p_kids (fun c => tosieve f c i) ns = lrender (flat_map (lt_cmd i [10%N]) body) ++ [10%N].
+Proof.
+  intros f i body ns H. induction H as [|c n body ns Hc Hr IH]; intro Hd; [reflexivity|].
+  cbn [fold_right] in Hd. cbn [p_kids flat_map]. rewrite lrender_app.
+  rewrite app_assoc, (Hc ltac:(lia)), <- !app_assoc, (IH ltac:(lia)). reflexivity.
+Qed.
+
+Theorem cmd_layout : forall c n, canon_cmd c n -> Pcmdl c n.
+Proof.
+  fix IH 3. intros c n H.
+  assert (G : forall f i body ns, Forall2 canon_cmd body ns ->
+              Forall2 (fun c n => dc c <= f -> [10%N] ++ tosieve f n i = lrender (lt_cmd i [10%N] c) ++ [10%N]) body ns).
+  { intros f i body ns Hb. induction Hb as [|c0 n0 b0 ns0 H0 Hr IHr]; constructor; [|exact IHr].
+    intro Hd. exact (IH c0 n0 H0 f i [10%N] Hd). }
+  destruct H as [d args am em Hid Hty Hch Hs|d a t nt body ns Hid Hty Hch Ha Hnt Ht Hb|d body ns Hid Hty Hch Ha Hb];
+    intros f ind w Hf; (destruct f as [|f]; [cbn in Hf; lia|]); rewrite tosieve_S; cbn [node_def node_children].
+  - destruct (args_layout d am em [] [] (fun t => tosieve f t 0) (fun t => tosieve f t ind) _ _ Hs) as (E & _).
+    rewrite E, Hch. cbn [negb lt_cmd lrender]. rewrite lrender_app. cbn [lrender app].
+    destruct (d_type d); try congruence; unfold sp; rewrite <- !app_assoc; reflexivity.
+  - rewrite Ha. cbn [p_args node_args]. rewrite assoc_get_one, Hnt. cbn [p_value]. rewrite Hch, Hty. cbn [negb].
+    cbn [lt_cmd lrender dc] in *.
+    pose proof (test_layout t nt Ht f ind [32%N] ltac:(lia)) as E. cbn [app] in E.
+    pose proof (kids_layout f (ind + 4) body ns (G f (ind + 4) body ns Hb) ltac:(lia)) as K.
+    rewrite !lrender_app. cbn [lrender app]. rewrite <- E.
+    rewrite !lrender_app. cbn [lrender app].
+    assert (K' : forall R, 10%N :: (p_kids (fun c0 => tosieve f c0 (ind + 4)) ns ++ R) =
+                           lrender (flat_map (lt_cmd (ind + 4) [10%N]) body) ++ 10%N :: R).
+    { intro R. change (10%N :: (p_kids (fun c0 => tosieve f c0 (ind + 4)) ns ++ R))
+        with (([10%N] ++ p_kids (fun c0 => tosieve f c0 (ind + 4)) ns) ++ R). rewrite K, <- app_assoc. reflexivity. }
+    cbn [app]. rewrite K'. unfold sp. rewrite ?app_nil_r.
+    repeat (rewrite <- app_assoc || rewrite <- app_comm_cons). reflexivity.
+  - rewrite Ha. cbn [p_args]. rewrite Hch, Hty. cbn [negb].
+    cbn [lt_cmd lrender dc] in *.
+    pose proof (kids_layout f (ind + 4) body ns (G f (ind + 4) body ns Hb) ltac:(lia)) as K.
+    rewrite !lrender_app. cbn [lrender app].
+    assert (K' : forall R, 10%N :: (p_kids (fun c0 => tosieve f c0 (ind + 4)) ns ++ R) =
+                           lrender (flat_map (lt_cmd (ind + 4) [10%N]) body) ++ 10%N :: R).
+    { intro R. change (10%N :: (p_kids (fun c0 => tosieve f c0 (ind + 4)) ns ++ R))
+        with (([10%N] ++ p_kids (fun c0 => tosieve f c0 (ind + 4)) ns) ++ R). rewrite K, <- app_assoc. reflexivity. }
+    cbn [app]. rewrite K'. unfold sp. rewrite ?app_nil_r.
+    repeat (rewrite <- app_assoc || rewrite <- app_comm_cons). reflexivity.
+Qed.
+
+(* the printed text of a canonical tree is the layout of its script *)
+Theorem tosieve_layout : forall cs ns f,
+  Forall2 canon_cmd cs ns -> cs <> [] -> fold_right (fun x m => Nat.max (dc x) m) 0 cs <= f ->
+  tosieve_all f ns = script_text cs.
+Proof.
+  intros cs ns f H Hne Hd. unfold tosieve_all, script_text.
+  destruct H as [|c n cs ns Hc Hr]; [congruence|]. cbn [fold_right] in Hd.
+  cbn [map concat]. unfold lt_cmds. rewrite lrender_app.
+  pose proof (cmd_layout c n Hc f 0 [] ltac:(lia)) as E. cbn [app] in E. rewrite E, <- !app_assoc.
+  f_equal.
+  assert (K : forall body ms, Forall2 canon_cmd body ms -> fold_right (fun x m => Nat.max (dc x) m) 0 body <= f ->
+              [10%N] ++ concat (map (fun n0 => tosieve f n0 0) ms) = lrender (flat_map (lt_cmd 0 [10%N]) body) ++ [10%N]).
+  { intros body ms Hb. induction Hb as [|c0 n0 b0 ms0 H0 Hr0 IHr]; intro Hd0; [reflexivity|].
+    cbn [fold_right] in Hd0. cbn [map concat flat_map]. rewrite lrender_app.
+    rewrite app_assoc, (cmd_layout c0 n0 H0 f 0 [10%N] ltac:(lia)), <- !app_assoc, (IHr ltac:(lia)). reflexivity. }
+  apply K; [exact Hr|lia].
+Qed.
+
+(* ---------------------------------------------------------------- C04 on trees *)
+
+Lemma canon_test_pr : forall t n, canon_test t n -> test_pr t.
+Proof.
+  fix IH 3. intros t n H. destruct H as [d args am em Hid Hty Hs|d a t' n' Hid Hty Ha Hnt Ht|d a ts ns Hid Hty Ha Htl Hne Hall].
+  - constructor; [exact Hid|]. apply (args_layout d am em [] [] (fun _ => []) (fun _ => []) _ _ Hs).
+  - constructor; [exact Hid|]. apply (IH t' n' Ht).
+  - constructor; [exact Hid|exact Hne|]. clear Hne.
+    induction Hall as [|t0 n0 ts0 ns0 H0 Hr IHr]; constructor; [apply (IH t0 n0 H0)|exact IHr].
+Qed.
+
+Lemma canon_cmd_pr : forall c n, canon_cmd c n -> cmd_pr c.
+Proof.
+  fix IH 3. intros c n H.
+  assert (G : forall body ns, Forall2 canon_cmd body ns -> Forall cmd_pr body).
+  { intros body ns Hb. induction Hb as [|c0 n0 b0 ns0 H0 Hr IHr]; constructor; [apply (IH c0 n0 H0)|exact IHr]. }
+  destruct H as [d args am em Hid Hty Hch Hs|d a t nt body ns Hid Hty Hch Ha Hnt Ht Hb|d body ns Hid Hty Hch Ha Hb].
+  - constructor; [exact Hid|]. apply (args_layout d am em [] [] (fun _ => []) (fun _ => []) _ _ Hs).
+  - constructor; [exact Hid|apply (canon_test_pr t nt Ht)|apply (G body ns Hb)].
+  - constructor; [exact Hid|apply (G body ns Hb)].
+Qed.
+
+(* C04, tree level: the text that the model of Command.tosieve prints for the tree of a well-formed script in
+   canonical form (names as in the definitions, arguments in definition order) is accepted and parses to
+   exactly that tree; hence printing the re-parsed tree gives the same text again (fixed point) *)
+Theorem print_parse_roundtrip : forall T cs ns L' f,
+  twf_tables T = true ->
+  wf_cmds T [] None cs ns L' -> Forall2 canon_cmd cs ns -> cs <> [] ->
+  fold_right (fun x m => Nat.max (dc x) m) 0 cs <= f ->
+  parse T (tosieve_all f ns) = Accept ns.
+Proof.
+  intros T cs ns L' f HT Hwf Hc Hne Hf.
+  rewrite (tosieve_layout cs ns f Hc Hne Hf).
+  apply (layout_parses T cs ns L' HT Hwf).
+  clear Hwf Hne Hf. induction Hc as [|c n cs ns H0 Hr IHr]; constructor; [apply (canon_cmd_pr c n H0)|exact IHr].
+Qed.
+
+Corollary print_fixed_point : forall T cs ns L' f,
+  twf_tables T = true ->
+  wf_cmds T [] None cs ns L' -> Forall2 canon_cmd cs ns -> cs <> [] ->
+  fold_right (fun x m => Nat.max (dc x) m) 0 cs <= f ->
+  match parse T (tosieve_all f ns) with
+  | Accept ns' => tosieve_all f ns' = tosieve_all f ns
+  | _ => False
+  end.
+Proof.
+  intros T cs ns L' f HT Hwf Hc Hne Hf. rewrite (print_parse_roundtrip T cs ns L' f HT Hwf Hc Hne Hf). reflexivity.
+Qed.
+
+Print Assumptions tosieve_layout.
+Print Assumptions print_parse_roundtrip.
+
+(* constructors with names and maps as equations (for concrete trees) *)
+Lemma ct_simple' : forall name d args am em,
+  name = d_name d -> ident_ok name = true -> d_type d = CTest -> slots_args d am em (d_args d) args ->
+  canon_test (GSimple name args) (Node d am em [] []).
+Proof. intros; subst; constructor; assumption. Qed.
+Lemma ct_not' : forall name d a t' n' am,
+  name = d_name d -> ident_ok name = true -> d_type d = CTest -> d_args d = [a] -> atype_mem TyTag (a_type a) = false ->
+  am = [(a_name a, VTest n')] ->
+  canon_test t' n' -> canon_test (GNot name t') (Node d am [] [] []).
+Proof. intros; subst; eapply ct_not; eassumption. Qed.
+Lemma ct_list' : forall name d a ts ns am,
+  name = d_name d -> ident_ok name = true -> d_type d = CTest -> d_args d = [a] -> a_type a = [TyTestList] -> ts <> [] ->
+  am = [(a_name a, VTests ns)] ->
+  Forall2 canon_test ts ns -> canon_test (GList name ts) (Node d am [] [] []).
+Proof. intros; subst; eapply ct_list; eassumption. Qed.
+Lemma cc_act' : forall name d args am em,
+  name = d_name d -> ident_ok name = true -> d_type d <> CTest -> d_accept_children d = false ->
+  slots_args d am em (d_args d) args -> canon_cmd (GAct name args) (Node d am em [] []).
+Proof. intros; subst; constructor; assumption. Qed.
+Lemma cc_ctl' : forall name d a t nt body ns am,
+  name = d_name d -> ident_ok name = true -> d_type d = CControl -> d_accept_children d = true -> d_args d = [a] ->
+  atype_mem TyTag (a_type a) = false -> am = [(a_name a, VTest nt)] -> canon_test t nt -> Forall2 canon_cmd body ns ->
+  canon_cmd (GCtl name t body) (Node d am [] ns []).
+Proof. intros; subst; eapply cc_ctl; eassumption. Qed.
+Lemma cc_else' : forall name d body ns,
+  name = d_name d -> ident_ok name = true -> d_type d = CControl -> d_accept_children d = true -> d_args d = [] ->
+  Forall2 canon_cmd body ns -> canon_cmd (GElse name body) (Node d [] [] ns []).
+Proof. intros; subst; eapply cc_else; eassumption. Qed.
